@@ -256,6 +256,18 @@ def run(chk: Check, repo: Repo) -> None:
         check_entry(chk, mr, m, ("ConversionError", "NotImplementedError"), ctx=c, label=f"{c.name}.to_knx", rule="value-rejected-with-conversion-error", reviewed=builder_reviewed)
     chk.floor("remote value encoders analysed", n, 15)
     pp = repo.func("xknx.tools.group_communication", "_parse_payload")
+    # a raw list goes into DPTArray, which checks the range of integers only (non-integers pass - pinned by upstream
+    # tests): at this boundary the elements have to be checked to be integers, else a payload is queued that cannot be
+    # serialised (and that the eager decode of a configured address chokes on)
+    ppc = CFG(pp.node)
+    ppf = ppc.must_facts()
+    built = [n for n in ppc.nodes if n.kind == "stmt" and isinstance(n.ast, ast.Assign) and isinstance(n.ast.value, ast.Call) and call_name(n.ast.value) == "DPTArray" and len(n.ast.targets) == 1 and isinstance(n.ast.targets[0], ast.Name)]
+    for bn in built:
+        local = bn.ast.targets[0].id
+        rets = [n for n in ppc.nodes if n.kind == "stmt" and isinstance(n.ast, ast.Return) and isinstance(n.ast.value, ast.Name) and n.ast.value.id == local and ppc.dominates(bn.id, n.id)]
+        ok = bool(rets) and all(any(v and a.startswith("all(") and "isinstance(" in a and ", int)" in a and f"{local}.value" in a for a, v in ppf[r.id]) for r in rets)
+        chk.ob("raw-payload-elements-are-integers", pp.site(bn.ast), ok, f"_parse_payload returns the DPTArray built from caller data " + ("only after all(isinstance(.., int) ..) over its elements held" if ok else "without checking that its elements are integers - DPTArray range-checks integers only"), key="raw|elements-int")
+    chk.floor("raw DPTArray constructions in _parse_payload", len(built), 1)
     check_entry(chk, mr, pp, ("ConversionError",), label="_parse_payload", rule="value-rejected-with-conversion-error", reviewed=builder_reviewed)
     scaling_rejects_out_of_range(chk, repo)
     ordering(chk, repo)
